@@ -115,3 +115,25 @@ claim('C14',
       '(LinearComplexityNative then equals its value on s mod 2^length; LinearComplexity raises OverflowError). setup.py passes -mpclmul, which defines __PCLMUL__ and not __CLMUL__ with gcc, so a stock build uses the portable variant (recorded in the evidence, not a violation).',
       'Lean 4 proofs (Massey\'s theorem, simulation invariant, counting recursion) over an executable model + differential correspondence with two Python and two C++ implementations',
       'DESIGN.md section 5 C14, section 6 D8')
+
+claim('C15',
+      'Lean theorems (Props/C15.lean), for EVERY bit string, length and parameter (no size bound), over an executable model of '
+      'randomness_tests/util.py: BitCount = sum of the bits; Runs = number of maximal constant blocks; LongestRunOfOnes = length of the '
+      'longest run of ones (doubling + binary refinement, via f_k = s & s>>1 & ... & s>>(k-1)); OverlappingRunsOfOnes = number of start '
+      'positions of m consecutive ones; ReverseBits = bit i -> bit n-1-i (incl. the OverflowError case and dropped garbage bits); '
+      'Bits = +-1 expansion (with fixes/D15-bits-empty.diff; the pinned code is proved wrong exactly for length 0); SplitSequence both '
+      'paths = (seq >> i*m) % 2^m; Scatter = streams of bits i, i+m, ...; SubSequences = the windows (all cyclic windows exactly once '
+      'with wrap); FrequencyCount slow path AND 4-bit-stride fast path = #{i | window i = pattern} with and without wrap-around, hence '
+      'fast = slow; _BinaryMatrixRankSmall AND the table-driven _BinaryMatrixRankLarge: 2^rank = number of distinct GF(2) combinations of the '
+      'rows, the large path never raises, hence large = small and BinaryMatrixRank is the rank on both sides of the 50-row threshold. '
+      'Model tied to /repo by differential correspondence: exhaustive over all strings of length <= 12 (thorough 16) x every parameter '
+      '0..length+1 incl. forced slow/fast paths, sampled up to 2^16 bits at every length residue mod 8 and both sides of 50*2^m < length, '
+      'block sizes 0..70, matrices with 0..257 (thorough 8191..8193) rows through BinaryMatrixRank and both private helpers.',
+      'Theorems assume well-formed strings (seq < 2^length); behaviour on strings with high garbage bits is mirrored '
+      'by the model and covered by correspondence only. FrequencyCount with the empty pattern (m = 0) and wrap=False returns [length] while '
+      'the definition gives [length+1]: treated as outside the domain (SubSequences rejects m <= 0), recorded in theorem '
+      'frequencyCount_empty_pattern_nowrap. Known finding: Bits with length == 0 (D15). The side m >= 24 of the fast-path guard needs '
+      'strings of > 8e8 bits and is not exercised by the harness (covered by frequencyCount_def, which holds for either branch). '
+      'Trusted: Lean kernel, correspondence harness, gmpy2.popcount / int.to_bytes / bytes.translate / format as modelled.',
+      'Lean 4 proof that an executable model equals the one-line definitions + differential correspondence with the Python implementation',
+      'DESIGN.md section 5 C15')
